@@ -295,6 +295,10 @@ pub struct PCfg {
     pub num_match: bool,
     /// local array literals indexed by arbitrary numeric expressions
     pub arrays: bool,
+    /// weight of record types among the types of local lets (tuples: 2, numbers: 6)
+    pub rec_weight: u32,
+    /// a record-typed let binds through a record pattern in this many of 3 cases
+    pub rec_pattern_thirds: u32,
     /// two local closures of one frame capturing the same closure-typed local
     pub sibling_closures: bool,
     /// array indices may be +-inf (off: the index is `sin(e) * 6.0`, finite or NaN)
@@ -339,6 +343,8 @@ impl Default for PCfg {
             makers_in_dsp: false,
             num_match: true,
             arrays: true,
+            rec_weight: 1,
+            rec_pattern_thirds: 1,
             sibling_closures: true,
             array_index_inf: true,
             nested_tuples: false,
@@ -430,7 +436,7 @@ impl<'a> PG<'a> {
 
     // ------------------------------------------------------------ types
     fn small_ty(&mut self, allow_rec: bool) -> Ty {
-        match self.g.weighted(&[6, 2, if allow_rec && self.cfg.records { 1 } else { 0 }]) {
+        match self.g.weighted(&[6, 2, if allow_rec && self.cfg.records { self.cfg.rec_weight } else { 0 }]) {
             0 => Ty::Num,
             1 => {
                 let n = self.g.int(2, 3) as usize;
@@ -850,7 +856,7 @@ impl<'a> PG<'a> {
     fn pattern_for_inner(&mut self, ty: &Ty, sc: &mut Scope, assignable: bool) -> Pat {
         match ty {
             Ty::Tup(ts) if self.g.bool(2, 3) => Pat::Tup(ts.clone().iter().map(|t| self.pattern_for_inner(t, sc, assignable)).collect()),
-            Ty::Rec(fs) if self.g.bool(1, 3) => Pat::Rec(fs.clone().iter().map(|(n, t)| (n.clone(), self.pattern_for_inner(t, sc, assignable))).collect()),
+            Ty::Rec(fs) if self.g.bool(self.cfg.rec_pattern_thirds, 3) => Pat::Rec(fs.clone().iter().map(|(n, t)| (n.clone(), self.pattern_for_inner(t, sc, assignable))).collect()),
             _ => {
                 let name = self.fresh("");
                 sc.vars.push(VarInfo { name: name.clone(), ty: ty.clone(), assignable, destructured: false, captured: false });
